@@ -3,7 +3,10 @@ Named, finite input spaces (lists of product blocks) shared by the E1 checks.
 Everything here is built from the reference tables, never from /repo.
 """
 
-from .engine.product import Block, parts
+import hashlib
+import zlib
+
+from .engine.product import Block, LazyParts, parts
 from .ref import tables as T
 
 ABSENT = [("", {})]
@@ -370,6 +373,112 @@ def v4_blocks(tier, mode="short", size=None):
 
     return [blk("skeleton_x_g36_free", ("g36",)),
             blk("g1_g2_g4_g5_free_x_g36_skeleton", ("g1", "g2", "g4", "g5"))]
+
+
+# =============================================================================== interaction rows
+# Rows that cut across ALL metric groups at once: in row k every metric independently takes the
+# value (or, if optional, "absent") that a fixed hash of (k, metric) selects, and the fields are
+# written in one of four orders. The set is fixed (no random source); how many rows it takes until
+# every combination of values of every t metrics has occurred is measured (interaction_coverage)
+# and reported: the bound of these blocks is the interaction strength t, exhaustively.
+
+INTERACTION_ROWS = {"quick": {"2": 60000, "3.0": 60000, "3.1": 60000, "4.0": 40000},
+                    "thorough": {"2": 400000, "3.0": 400000, "3.1": 400000, "4.0": 300000}}
+
+
+def _domains(fam):
+    tab = T.METRICS[fam]
+    mand = T.MANDATORY[fam]
+    return [(m, list(tab[m]) if m in mand else [None] + list(tab[m])) for m in tab]
+
+
+def interaction_row(fam, k, doms=None):
+    doms = doms or _domains(fam)
+    h = hashlib.sha512(("%s|%d" % (fam[0], k)).encode("ascii")).digest()     # one byte per metric
+    asg = {}
+    for i, (m, dom) in enumerate(doms):
+        v = dom[(h[i] + 256 * h[63 - i]) % len(dom)]
+        if v is not None:
+            asg[m] = v
+    return asg
+
+
+def interaction_part(fam):
+    doms = _domains(fam)
+    names = [m for m, _ in doms]
+
+    def part(k):
+        asg = interaction_row(fam, k, doms)
+        order = [m for m in names if m in asg]
+        r = k % 4
+        if r == 1:
+            order = order[::-1]
+        elif r == 2:
+            order = order[len(order) // 2:] + order[:len(order) // 2]
+        elif r == 3:
+            order = order[1::2] + order[0::2]
+        return "/".join("%s:%s" % (m, asg[m]) for m in order), asg
+    return part
+
+
+def interaction_block(fam, tier, twin=None, n=None):
+    n = n or INTERACTION_ROWS[tier][fam]
+    return Block("v%s.interaction_rows" % fam, fam, LazyParts(n, interaction_part(fam)), twin=twin,
+                 meta={"interaction": True})
+
+
+def _coverage_task(t):
+    fam, strength, rows, lo, hi = t
+    import itertools
+    doms = _domains(fam)
+    idx = dict((m, dict((v, i) for i, v in enumerate(dom))) for m, dom in doms)
+    table = []
+    for k in range(rows):
+        a = interaction_row(fam, k, doms)
+        table.append([idx[m][a.get(m)] for m, _ in doms])
+    combos = list(itertools.combinations(range(len(doms)), strength))[lo:hi]
+    total = covered = 0
+    last_needed = 0
+    for c in combos:
+        want = 1
+        for i in c:
+            want *= len(doms[i][1])
+        seen = set()
+        for k, row in enumerate(table):
+            key = tuple(row[i] for i in c)
+            if key not in seen:
+                seen.add(key)
+                if len(seen) == want:
+                    last_needed = max(last_needed, k + 1)
+                    break
+        total += want
+        covered += len(seen)
+    return total, covered, last_needed
+
+
+def interaction_coverage(fam, strength, rows):
+    """(combinations of values of `strength` metrics that exist, how many occur in the first `rows`
+    rows, number of rows after which all occur - 0 if they do not all occur)."""
+    import itertools
+    from . import core
+    n = len(list(itertools.combinations(range(len(_domains(fam))), strength)))
+    outs = core.pool_map(_coverage_task, [(fam, strength, rows, lo, hi) for lo, hi in core.split_range(n, 64)])
+    total = sum(o[0] for o in outs)
+    covered = sum(o[1] for o in outs)
+    return {"strength": strength, "value_combinations": total, "covered": covered,
+            "rows_examined": rows, "rows_until_all_covered": max(o[2] for o in outs) if covered == total else None}
+
+
+def interaction_evidence(fams, tier):
+    """Measured interaction strength of the interaction blocks of the given families."""
+    out = {}
+    for fam in fams:
+        n = INTERACTION_ROWS[tier][fam]
+        ev = {"rows": n, "t=3": interaction_coverage(fam, 3, min(n, 6000))}
+        if fam != "4.0" or tier == "thorough":
+            ev["t=4"] = interaction_coverage(fam, 4, min(n, 40000))
+        out[fam] = ev
+    return out
 
 
 def thin(seq, k):
